@@ -62,6 +62,7 @@ structure Reply where
 inductive Ev
   | sent (role : Role) (lines : List String)   -- one packet (1 or 2 lines) / one HTTP request
   | got (role : Role) (r : Reply)              -- one reply read
+  | skipped (r : Reply)                        -- a stale reply passed over while waiting for a special prompt
   | logErr                                      -- an `ERROR>>>` line in the log
   | logWarn                                     -- a `WARNING>>>` line
   | logChanged                                  -- `comp: *** device changed ***`
@@ -120,6 +121,9 @@ inductive Sess
   | send (role : Role) (t : Txt)
   | recv (role : Role) (p : Pat)
   | recvMore (p : Pat)
+  | roundTrip (role : Role) (t : Txt) (replayable : Bool)
+    -- one `http.Client` request: send + receive; net/http replays a replayable request once when a
+    -- reused keep-alive connection is closed before any byte of the reply
   | ite (c : Cond) (label : String) (t e : Sess)
   | abort (lits : List String)
   | warn (lits : List String)
@@ -195,6 +199,36 @@ def evalCond (c : Cond) (env : Env) (s : St) : Bool :=
   | .ctrPos => s.ctr > 0
   | .not c => !evalCond c env s
 
+def linesSent (tr : List Ev) : Nat :=
+  tr.foldl (fun n e => match e with | .sent _ ls => n + ls.length | _ => n) 0
+
+def repliesRead (tr : List Ev) : Nat :=
+  tr.foldl (fun n e => match e with | .got _ _ => n + 1 | .skipped _ => n + 1 | _ => n) 0
+
+def Pat.skips : Pat → Bool
+  | .special _ => true
+  | _ => false
+
+/-- goexpect's `Expect`: read up to the first match.  The device has produced one reply per
+line on the wire (plus the preamble); `n` of them are unread.  A wait for a special prompt
+passes over complete stale replies (they are only left over after an abort during a joined
+two-command packet); the last unread reply decides. -/
+def recvLoop (dev : Dev) (ρ : Role) (p : Pat) : Nat → St → St
+  | 0, s => { s with errv := true }
+  | n+1, s =>
+    let r := dev s.tr
+    if p.matches r then
+      { s with tr := s.tr ++ [.got ρ r], last := r, errv := false,
+               banner := s.banner || (ρ == .login && r.flags.contains .bannerOk) }
+    else if p.skips && r.arr == .full && n != 0 then
+      recvLoop dev ρ p n { s with tr := s.tr ++ [.skipped r] }
+    else
+      { s with tr := s.tr ++ [.got ρ r], last := r, errv := true }
+
+/-- a complete reply has been received before: the connection is a reused keep-alive connection -/
+def connReused (tr : List Ev) : Bool :=
+  tr.any fun e => match e with | .got _ r => r.arr == .full | _ => false
+
 /-- Bounded iteration of a loop body given as a state transformer. -/
 def iter : Nat → (St → St) → St → St
   | 0, _, s => if s.mode = .run then { s with mode := .diverge } else s
@@ -217,10 +251,13 @@ def exec : Sess → Env → St → St
   | .send role t, env, s =>
     if s.mode = .run then { s with tr := s.tr ++ [.sent role (t.lines env)] } else s
   | .recv role p, env, s =>
+    if s.mode = .run then recvLoop env.dev role p (linesSent s.tr + 1 - repliesRead s.tr) s else s
+  | .roundTrip role t replay, env, s =>
     if s.mode = .run then
-      let r := env.dev s.tr
-      { s with tr := s.tr ++ [.got role r], last := r, errv := !p.matches r,
-               banner := s.banner || (role == .login && r.flags.contains .bannerOk) }
+      let s1 := recvLoop env.dev role .http 1 { s with tr := s.tr ++ [.sent role (t.lines env)] }
+      if replay && s1.last.arr == .closed && connReused s.tr then
+        recvLoop env.dev role .http 1 { s1 with tr := s1.tr ++ [.sent role (t.lines env)] }
+      else s1
     else s
   | .recvMore p, _, s =>
     if s.mode = .run then { s with errv := !(p.matches s.last && s.last.arr == .full) } else s
@@ -290,6 +327,7 @@ def skel : Sess → List String → List Site
   | .send _ t, ctx => [⟨"<send>", (match t with | .lit s => [s] | .litNl s => [s ++ "\n"] | _ => ["_"]), ctx⟩]
   | .recv _ _, ctx => [⟨"<recv>", [], ctx⟩]
   | .recvMore _, ctx => [⟨"<recv>", [], ctx⟩]
+  | .roundTrip _ _ _, ctx => [⟨"<send>", ["_"], ctx⟩, ⟨"<recv>", [], ctx⟩]
   | .ite _ label t e, ctx => skel t (ctx ++ ["if:" ++ label]) ++ skel e (ctx ++ ["else:" ++ label])
   | .abort lits, ctx => [⟨"Abort", lits, ctx⟩]
   | .warn lits, ctx => [⟨"Warning", lits, ctx⟩]
